@@ -17,6 +17,7 @@ import Knee.Model.KneedleQ
 import Knee.Model.Isodata
 import Knee.Model.Matching
 import Knee.Model.Ranking
+import Knee.Model.PipelineFull
 /-
 Correspondence driver.  `lake env lean --run Driver.lean` (or the compiled `driver` exe).
 Harness → driver : `CALL <fn> <arg> <arg> …`
@@ -416,6 +417,41 @@ def dispatch (out inp : IO.FS.Stream) (fn : String) (args : List String) : M Str
     let b ← pt2 b
     let c ← pt2 c
     pure (showRat (cornerTriQ a b c))
+  | "pipeline_full", [isR2, t, n, kind, t1, t2, tc] =>
+    -- the whole pipeline in ONE model run (the composition `pipelineFull`), oracles asked lazily:
+    -- stage 1 in original space (cst/dst), then `reduced` is announced and every later oracle is in reduced space
+    let t ← orErr (parseRat? t) "t"
+    let n ← orErr (parseNat? n) "n"
+    let t1 ← orErr (parseRat? t1) "t1"
+    let t2 ← orErr (parseNat? t2) "t2"
+    let tc ← orErr (parseRat? tc) "tc"
+    let r ← rdpM (isR2 == "1") t (oCst out inp) (oDst out inp) n
+    match r with
+    | none => pure "none"
+    | some (red, rem) =>
+      let _ ← ask out inp s!"reduced {showNats red}"
+      let gate := fun (l r : Nat) => (do
+        if r - l ≤ 2 then pure (decide (t1 ≤ 1)) else do
+          let v ← askRat out inp s!"sm {l} {r}"
+          pure (decide (t1 ≤ v)) : M Bool)
+      let ko ← multiKneeM (detM out inp kind .adjusted 10) gate t2 red.length
+      match ko with
+      | none => pure "none"
+      | some knees =>
+        let hs ← askRats out inp "hts"
+        let w := worstFilter (fun k => hs[k]?.getD 0) knees
+        let ious ← if w.isEmpty then pure [] else askRats out inp s!"ious {showNats w}"
+        let tbl := w.zip ious
+        let c := cornerFilter red.length (fun k => ((tbl.find? fun p => p.1 == k).map (·.2)).getD 0) tc w
+        let labelToks ← if c.length ≤ 1 then pure ["-"] else ask out inp s!"labels {showNats c}"
+        let labels ← orErr (parseList? parseNat? (labelToks.headD "-")) "labels"
+        let groups := groupByLabels labels c
+        let rows ← groups.mapM fun g => if g.length > 1 then askRats out inp s!"scores {showNats g}" else pure (g.map fun _ => (0 : Rat))
+        let gt := groups.zip rows
+        let score := fun (g : List Nat) => ((gt.find? fun e => e.1 == g).map (·.2)).getD []
+        let k := clusterFilter score labels c
+        let o := mapping k red rem true
+        pure (showNats red ++ " " ++ showNats knees ++ " " ++ showNats w ++ " " ++ showNats c ++ " " ++ showNats k ++ " " ++ showNats o)
   | _, _ => throw s!"unknown call {fn}/{args.length}"
 
 partial def loop (out inp : IO.FS.Stream) : IO Unit := do
